@@ -110,6 +110,25 @@ Next == \/ DoCreateNode \/ DoCreateEdge \/ DoCreateEdgeStub \/ DoDeleteEdge \/ D
         \/ DoCompact \/ DoFinish \/ DoSetNodeProp \/ DoRemoveNodeProp \/ DoAddLabel \/ DoRemoveLabel \/ DoSetEdgeProp
 Spec == Init /\ [][Next]_vars
 
+\* Hub families (sequence-exhaustive, no VIEW): MaxN unlabelled nodes, then relationships between the first node and the others
+\* only -- all outgoing (HubOut) or all incoming (HubIn), parallel ones included, in every order -- and, once the hub has three,
+\* deletions of any of them, in every interleaving up to MaxHist steps.  Adjacency lists that are kept sorted and searched by
+\* bisection only show a lost order from three entries on; the observation after every step compares every view.
+DoCreateEdgeHub(out) ==
+    \E x \in KnownN \ {hN[1]}, t \in Types :
+        LET s == IF out THEN hN[1] ELSE x
+            d == IF out THEN x ELSE hN[1] IN
+        /\ LiveN(s) /\ LiveN(d) /\ AllocE <= MaxE
+        /\ CreateEdge(AllocE, s, d, t, TRUE) /\ TakeE /\ hE' = Append(hE, AllocE)
+        /\ UNCHANGED <<freeN, nextN, hN>>
+        /\ H([op |-> "CreateEdge", s |-> HandleN(s), d |-> HandleN(d), t |-> t])
+HubNext(out) ==
+    \/ Len(hist) < MaxN /\ DoCreateNode
+    \/ Len(hist) >= MaxN /\ DoCreateEdgeHub(out)
+    \/ Len(hist) >= MaxN + 3 /\ DoDeleteEdge
+SpecHubOut == Init /\ [][HubNext(TRUE)]_vars
+SpecHubIn == Init /\ [][HubNext(FALSE)]_vars
+
 View == <<node, col, ends, etype, ep, buf, frozen, labelIdx, typeIdx, bulk, freeN, freeE, nextN, nextE>>
 Bound == Len(hist) <= MaxHist
 Emit == PrintT(<<"SCRIPT", ToJson(hist')>>)
